@@ -493,7 +493,11 @@ func hostileCmd(args []string) error {
 			names = append(names, k)
 		}
 		sort.Strings(names)
-		for m := 0; m < nmut; m++ {
+		nm := nmut
+		if len(s.Data) > 1<<20 {
+			nm = nmut / 20 // the multi-MiB seed: each mutant costs megabytes of copying and deflating
+		}
+		for m := 0; m < nm; m++ {
 			d := append([]byte{}, s.Data...)
 			nops := 1 + rng.Intn(3)
 			var ops []string
@@ -541,7 +545,7 @@ func hostileCmd(args []string) error {
 		}
 		step := 1 + len(s.Data)/120
 		if *tier == "thorough" {
-			step = 1
+			step = 1 + len(s.Data)/6000 // every cut of the ordinary seeds; 6000 cuts of the multi-MiB one
 		}
 		for cut := 0; cut < len(s.Data); cut += step {
 			if !mine() {
